@@ -917,18 +917,21 @@ def run_check(rep, thorough):
     dis2 = stage_w_rpath(rep, rng, 600 if thorough else 120)
     stage_r_ld(rep, rng, 400 if thorough else 70)
     # direct oracle on the implementation (10x when the model tie is broken)
-    found = 0
+    # failing inputs that are not known findings (those must not hide a broken correspondence)
+    v0 = len(rep.violations)
+    nfail = 0
     mult = 10 if (dis or dis2) else 1
     oprojects = projects + [gen_project(rng, None) for _ in range(nproj * (mult - 1))]
     for p in oprojects:
-        if found >= 25:
+        if len(rep.violations) - v0 >= 25:
             break               # enough concrete failing inputs
         rep.case('o:' + p.text(), True)
-        found += oracle_project(rep, p, fixed)
-    rep.stage('oracle:property-on-real-objects', projects=len(oprojects), failures=found)
+        nfail += oracle_project(rep, p, fixed)
+    rep.stage('oracle:property-on-real-objects', projects=len(oprojects), failures_including_known_findings=nfail,
+              violations=len(rep.violations) - v0)
     sbad, sdis = stage_system(rep, rng, fixed, (120 if thorough else 11) * (2 if (dis or dis2) else 1))
-    found += sbad
-    if sdis and not sbad:
+    found = len(rep.violations) - v0
+    if sdis and not found:
         p, x = sdis[0]
         rep.fail('system level: the link lines of the real build and the model differ (%d cases), e.g. node %r: '
                  'make -n %r, model %r' % (len(sdis), x[0], x[2], x[3]),
